@@ -1051,6 +1051,10 @@ impl<'p> Evaluator<'_, 'p> {
     }
 }
 
+/// Largest precision handed to the host formatter. The exact decimal expansion
+/// of a double has at most 1074 fractional (767 significant) digits.
+const MAX_HOST_PREC: usize = 1100;
+
 fn render_float_def(
     value: f64,
     prec: usize,
@@ -1063,7 +1067,11 @@ fn render_float_def(
     let value_abs = value.abs();
     let is_neg = value.is_sign_negative() && value != 0.0;
 
-    let mut digits_str = format!("{value_abs:.prec$}");
+    // The host formatter rejects huge precisions; digits beyond `MAX_HOST_PREC`
+    // are always zero because a double has at most 1074 fractional digits.
+    let host_prec = prec.min(MAX_HOST_PREC);
+    let mut digits_str = format!("{value_abs:.host_prec$}");
+    digits_str.extend(std::iter::repeat_n('0', prec - host_prec));
     if prec == 0 && ensure_pt {
         digits_str.push('.');
     } else if prec != 0 && trim_zeros {
@@ -1090,9 +1098,12 @@ fn render_float_exp(
     let value_abs = value.abs();
     let is_neg = value.is_sign_negative() && value != 0.0;
 
-    let digits_str = format!("{value_abs:.prec$e}");
+    let host_prec = prec.min(MAX_HOST_PREC);
+    let digits_str = format!("{value_abs:.host_prec$e}");
     let e_pos = digits_str.bytes().position(|chr| chr == b'e').unwrap();
-    let mut mant_str = &digits_str[..e_pos];
+    let mut mant_string = String::from(&digits_str[..e_pos]);
+    mant_string.extend(std::iter::repeat_n('0', prec - host_prec));
+    let mut mant_str = mant_string.as_str();
     if prec != 0 && trim_zeros {
         mant_str = mant_str.trim_end_matches('0');
         if !ensure_pt {
